@@ -1,9 +1,16 @@
+#![allow(unexpected_cfgs)]
 use std::fmt;
 use std::slice;
 use std::str;
+#[cfg(sourcemap_verif)]
+use shuttle::sync::atomic::AtomicUsize;
+#[cfg(not(sourcemap_verif))]
 use std::sync::atomic::AtomicUsize;
 use std::sync::atomic::Ordering;
 use std::sync::Arc;
+#[cfg(sourcemap_verif)]
+use shuttle::sync::Mutex;
+#[cfg(not(sourcemap_verif))]
 use std::sync::Mutex;
 
 use if_chain::if_chain;
